@@ -22,6 +22,104 @@ PROPS["C14"] = dict(
     trusted=COMMON_TRUST,
 )
 
+PROPS["C01"] = dict(
+    units=[("verus", "scanner"), ("kani", "prec")],
+    explanation="Every Scanner method is verified panic-free (all indexing and slicing in bounds, no overflow), terminating "
+                "(decreases on the remaining input) and progressing (next_token strictly advances and returns Eof at end of input) "
+                "for every input text; the Pratt loop's termination invariant (a token that can continue an expression has an infix parser) "
+                "holds for every token type.",
+    not_covered=["panic-freedom of the expression parsers and of compile_* (recursion depth, radix literal slices)",
+                 "that main executes only programs without diagnostics (driver unit, when built)"],
+    assumptions=["Unicode classification (is_alphabetic/is_alphanumeric) is uninterpreted except: NUL is in no class, alphabetic implies alphanumeric",
+                 "fewer than 2^64 - 2 characters/tokens are scanned (read_position does not overflow)",
+                 "string building shims (collect, to_string, format!) return some String"],
+    trusted=COMMON_TRUST,
+)
+
+PROPS["C03"] = dict(
+    units=[("kani", "prec")],
+    explanation="PARSE_RULES is read from the real lazy_static and compared, for every TokenType, with the documented precedence "
+                "table: level, presence of an infix/prefix parser and associativity; Precedence's derived order is the discriminant order.",
+    not_covered=["that a Pratt loop over this table yields the documented grouping (precedence-climbing theorem, assumed)",
+                 "that parse_infix_expression/parse_prefix_expression recurse with the operator's own precedence (pins unit, when built)"],
+    assumptions=["TokenType is a field-less enum with contiguous discriminants (transmute in the harness)"],
+    trusted=COMMON_TRUST,
+)
+
+PROPS["C06"] = dict(
+    units=[("kani", "ops")],
+    explanation="Object::is_falsey equals the documented table for every Bool, Integer, Float (incl. -0.0, NaN), Char, Byte value and Null.",
+    not_covered=["Str/Arr/Map emptiness (HashMap/String are outside Kani's reach; is_empty calls read)",
+                 "compile_logical_and/or jump emission; Bang/JumpIfFalse arms (vmarms unit, when built)"],
+    assumptions=[],
+    trusted=COMMON_TRUST,
+)
+
+PROPS["C08"] = dict(
+    units=[("kani", "ops"), ("verus", "vmcore"), ("kani", "headers")],
+    explanation="Operator impls are panic-free on every scalar pair the VM lets through (Kani, full domain); the VM's stack/frame "
+                "helpers, call_func, call_builtin, push_closure, binary_op, bitwise_op are verified panic-free under the VM "
+                "representation invariant and preserve it (Verus); header parsers return Err on every truncated buffer.",
+    not_covered=["VM::run as a whole (its arms are verified in vmarms when built)", "builtins (argument boundary checks)", "compile_* emission"],
+    assumptions=["operands the compiler encodes (constant index, free count, argument count) are within the VM state they index (precondition of the helpers)",
+                 "num_locals of a compiled function is below 2^32"],
+    trusted=COMMON_TRUST,
+)
+
+PROPS["C09"] = dict(
+    units=[("kani", "ops"), ("verus", "vmcore")],
+    explanation="For every scalar kind pair and every payload: + - * / % << >> & | ^ and unary - equal the two's-complement / modulo-2^8 / "
+                "IEEE model; comparisons are exact on integers and IEEE otherwise, consistent with ==. binary_op/bitwise_op return Ok only for "
+                "(operator, kind, kind) combinations of the C09 table and call the operator only on its panic-free domain.",
+    not_covered=["float % value (CBMC has no fmod: result kind only)", "string/char lexicographic compare beyond chars (std String::partial_cmp assumed)",
+                 "Minus/Not opcode arms (vmarms unit, when built)"],
+    assumptions=["the closure passed with each BinaryOperation is the operator of the same name (checked per arm in vmarms)"],
+    trusted=COMMON_TRUST,
+)
+
+PROPS["C10"] = dict(
+    units=[("kani", "ops")],
+    explanation="For all pairs of scalar keys (Integer, Float, Byte, Char, Bool, Null): k1 == k2 implies the two keys feed identical byte "
+                "streams to any Hasher, which is the precondition of HashMap's lookup contract.",
+    not_covered=["Str/Arr/Builtin keys (String/Vec hashing outside Kani's reach)", "HashMap's own contract (std, assumed)",
+                 "Object::eq is not transitive across Integer/Float above 2^53 (stated limitation of the std contract's precondition)"],
+    assumptions=["std HashMap returns the value most recently inserted under a key that is == and hashes equally"],
+    trusted=COMMON_TRUST,
+)
+
+PROPS["C13"] = dict(
+    units=[("verus", "vmcore"), ("verus", "bytecode")],
+    explanation="make() records the given line for every byte of an instruction; every RTError built by the verified VM helpers "
+                "(push/pop/top, call_func, call_builtin, push_closure, binary_op, bitwise_op, exec_call, push_frame) carries the line argument.",
+    not_covered=["that the compiler passes the right token's line to emit", "errors built inside the opcode arms (vmarms unit, when built)"],
+    assumptions=[],
+    trusted=COMMON_TRUST,
+)
+
+PROPS["C15"] = dict(
+    units=[("kani", "headers")],
+    explanation="For every header content of each layer, serialising a freshly parsed layer returns the captured bytes from its offset.",
+    not_covered=["payload longer than the harness bound (unbounded half: headers Verus unit, when built)", "cached inner layers / error objects (pktprop)"],
+    assumptions=[],
+    trusted=COMMON_TRUST,
+)
+PROPS["C16"] = dict(
+    units=[("kani", "headers")],
+    explanation="For every header content of each layer, every getter equals the RFC field of the raw bytes, the parser fails exactly on truncated headers and the payload offset follows the header length fields.",
+    not_covered=["address text (C18)", "layer dispatch get_inner / exec_prop_* (pktprop unit, when built)", "pcap global header (C19)"],
+    assumptions=["TCP flags are the 12 bits after the data offset (reserved + control bits), so that serialisation stays lossless"],
+    trusted=COMMON_TRUST,
+)
+PROPS["C17"] = dict(
+    units=[("kani", "headers")],
+    explanation="For every writable integer/bool field of every layer, every header content and every assigned i64: the stored value is the value reduced to the field width "
+                "(the value itself when in range) or the setter fails leaving everything unchanged; every other getter is unchanged; the serialised bytes differ only "
+                "inside the field's bit range; re-parsing reads the same value.",
+    not_covered=["address setters (string parsing, C18)", "sequences of assignments (follow from the frame condition of each setter)", "exec_prop_* wiring"],
+    assumptions=[],
+    trusted=COMMON_TRUST,
+)
+
 # every property not claimed above, with the reason (kept current; see DESIGN.md §6)
 NOT_APPLICABLE = {
     "C01": "not built yet (scanner/parser units pending)",
